@@ -85,6 +85,8 @@ pub struct DsOpts {
     pub nonfinite: bool,
     /// allow (7FE0,0010) inside sequence items as well (icon images and the like)
     pub nested_pixel: bool,
+    /// single text values of list-capable VRs also as one `Str`
+    pub single_str: bool,
 }
 
 impl Default for DsOpts {
@@ -105,6 +107,7 @@ impl Default for DsOpts {
             xs_case: true,
             nonfinite: true,
             nested_pixel: false,
+            single_str: true,
         }
     }
 }
@@ -259,6 +262,20 @@ fn int_pool(rng: &mut Rng, min: i128, max: i128) -> i128 {
 
 /// A value that is valid for `vr` (never SQ; never pixel sequences).
 pub fn gen_value(rng: &mut Rng, vr: VR, o: &DsOpts) -> GVal {
+    let v = gen_value_list(rng, vr, o);
+    // a single text value is also produced in the `Str` representation (what
+    // `PrimitiveValue::from(&str)` builds): it takes other paths in the encoders than a list
+    if o.single_str {
+        if let GVal::Strs(items) = &v {
+            if items.len() == 1 && rng.chance(1, 3) {
+                return GVal::Str(items[0].clone());
+            }
+        }
+    }
+    v
+}
+
+fn gen_value_list(rng: &mut Rng, vr: VR, o: &DsOpts) -> GVal {
     if vr != VR::SQ && rng.chance(1, 12) {
         return GVal::Empty;
     }
